@@ -89,6 +89,39 @@ def read_file(ctx: Ctx, fs: FS):
     return f, out, it
 
 
+FOREIGN_NONFINITE = ["NaN", "NAN", "Infinity", "-Infinity", "INF", "+inf", "1e999", "-1e999", " nan"]
+
+
+def check_foreign_spellings(ctx: Ctx):
+    """R18.4 (tables not written by the aggregator): a cell that float() turns into NaN or an infinity comes back as
+    missing however it is spelled (NaN, Infinity, INF, +inf, 1e999 ...); finite cells next to it come back as numbers."""
+    from .aggrun import header_row
+
+    fs = FS()
+    hdr = header_row()
+    width = len(hdr)
+    rows = [hdr]
+    for i, sp in enumerate(FOREIGN_NONFINITE):
+        rows.append([f"f{i}", sp] + ["1.5"] * (width - 2))
+    fs.files["/d/out.tsv"] = rows
+    f, out, it = read_file(ctx, fs)
+    construct = "foreign-spellings"
+    if out.kind != "return" or out.decisions or not isinstance(out.value, Obj):
+        ctx.decide("R18.4", f, out.node, construct, "the loader reads a table with non-finite cells in other spellings", False if (out.kind == "raise" and not out.decisions) else None, {"outcome": out.kind, "exc": out.exc, "decisions": [norm(d[0]) for d in out.decisions if isinstance(d[0], ast.AST)][:3]})
+        return
+    vd = out.value.attrs.get("_Panoptica_Statistic__value_dict")
+    g0, k0 = GROUPS[0], KEYS[0]
+    col = vd.get(g0, {}).get(k0) if isinstance(vd, dict) and isinstance(vd.get(g0), dict) else None
+    if not isinstance(col, list) or len(col) != len(FOREIGN_NONFINITE):
+        ctx.undecided("R18.4", f, f.node, construct, f"loader state not readable: {col!r}"[:160])
+        return
+    wrong = {sp: repr(v) for sp, v in zip(FOREIGN_NONFINITE, col) if v is not None}
+    ctx.decide("R18.4", f, f.node, construct, "every cell that float() reads as NaN or infinite is reported as missing, whatever its spelling", not wrong, {"kept_as_values": wrong} if wrong else None)
+    other = vd.get(g0, {}).get(KEYS[1]) if len(KEYS) > 1 else None
+    if isinstance(other, list):
+        ctx.decide("R18.4", f, f.node, construct + ":finite-neighbours", "the finite cells of those rows come back as numbers", all(v == 1.5 for v in other), {"got": repr(other)[:120]}, nontrivial=False)
+
+
 def check_roundtrip(ctx: Ctx):
     for log_times in (False, True):
         fs, values, wits, agg = write_file(ctx, log_times)
@@ -278,6 +311,7 @@ def _run_rule(ctx, name, fn):
 def check(ctx: Ctx):
     _run_rule(ctx, "R18.7", check_key_selections)
     _run_rule(ctx, "check_roundtrip", check_roundtrip)
+    _run_rule(ctx, "R18.4", check_foreign_spellings)
     _run_rule(ctx, "check_dialect", check_dialect)
     _run_rule(ctx, "check_vocabulary", check_vocabulary)
     try:
